@@ -67,10 +67,11 @@ def transformed_sources(src):
             continue
         tree = ast.parse(src[m.rel])
         bound = set()
-        for n in tree.body:
+        for n in ast.walk(tree):  # (function-local imports included: the package uses them to avoid import cycles)
             if isinstance(n, (ast.Import, ast.ImportFrom)):
                 bound |= {(a.asname or a.name).split(".")[0] for a in n.names}
-            elif isinstance(n, (ast.FunctionDef, ast.ClassDef)):
+        for n in tree.body:
+            if isinstance(n, (ast.FunctionDef, ast.ClassDef)):
                 bound.add(n.name)
         extra = []
         for local, imp in m.imports.items():
